@@ -26,7 +26,9 @@ explicit decidable predicate on the parsed postings (Lemmas/CoherenceCore.lean).
      `costOtherComm`  cost commodity ≠ amount commodity              (FinX only)
      `exchangeGuard`  in the implied two-commodity exchange the amounts are exact
                       decimals at their display precision            (FinX only)
-     `noCostAssert`, `impliedCase = false`    AutoXact's own fragment (else `unsupported`)
+     `noCostAssert`, `impliedCase = false`    AutoXact compared on the no-cost fragment only
+                      (with a cost it annotates the amount with a lot, which the others do not model)
+     `noLotAmt`       no lot-annotated commodity `BASE{…}[…]` (AutoXact sorts by base symbol)
 2. with costs: the per-posting contribution to the residual and the residual
    balance per commodity agree in FinX / OF / Assert with NO guard
    (`cost_contribution_agree`, `cost_residual_agree`); as `Value`s under the flag guards.
@@ -91,23 +93,26 @@ theorem COH.noCost_guards (ps : List Posting) (h : noCostAssert ps = true) :
     verdict and the rows — account, kind, exact amount, in order — of `FinX.finalize`. -/
 theorem COH.finx_autoxact_agree (env : PrecEnv) (enum : Balance → Balance) (henum : ∀ b, (enum b).Perm b)
     (x : Xact) (hca : noCostAssert x.posts = true) (hk : noKeepAmt x.posts = true)
+    (hlot : noLotAmt x.posts = true)
     (hvn : noVirtNull x.posts = true) (hsa : someAmount x.posts = true)
     (himp : impliedCase env x.posts = false) :
     verdictAuto (AutoXact.finalize env x) = verdictFin (FinX.finalize env none enum x) := by
-  rw [auto_eq_ref env x hca hvn hsa himp]
+  rw [auto_eq_ref env x hca hk hlot hvn hsa himp]
   obtain ⟨h1, h2⟩ := COH.noCost_guards x.posts hca
   exact (fin_eq_ref env enum henum x.posts hk hvn h1 h2 (by unfold exchangeGuard; rw [himp]; rfl)).symm
 
-/-- C16 and C08 agree (no keep-flag guard needed: neither clears the flag). -/
+/-- C16 and C08 agree. -/
 theorem COH.autoxact_of_agree (env : PrecEnv) (x : Xact) (hca : noCostAssert x.posts = true)
+    (hk : noKeepAmt x.posts = true) (hlot : noLotAmt x.posts = true)
     (hvn : noVirtNull x.posts = true) (hsa : someAmount x.posts = true)
     (himp : impliedCase env x.posts = false) :
     verdictOF (OF.finalize env x.date x.posts)
       = (verdictAuto (AutoXact.finalize env x)).map (Row.toOF x.date) := by
-  rw [of_eq_ref env x.date x.posts hvn, auto_eq_ref env x hca hvn hsa himp]
+  rw [of_eq_ref env x.date x.posts hvn, auto_eq_ref env x hca hk hlot hvn hsa himp]
 
 /-- C16 and C09 agree. -/
 theorem COH.autoxact_assert_agree (cx : Assert.Ctx) (x : Xact) (hca : noCostAssert x.posts = true)
+    (hk : noKeepAmt x.posts = true) (hlot : noLotAmt x.posts = true)
     (hvn : noVirtNull x.posts = true) (hsa : someAmount x.posts = true)
     (himp : impliedCase cx.env x.posts = false) :
     (verdictAssert (Assert.finalize cx x.posts)).PermEq
@@ -122,7 +127,7 @@ theorem COH.autoxact_assert_agree (cx : Assert.Ctx) (x : Xact) (hca : noCostAsse
     cases hpc : p.cost with
     | none => rfl
     | some _ => rw [hpc] at this; cases this
-  rw [auto_eq_ref cx.env x hca hvn hsa himp]
+  rw [auto_eq_ref cx.env x hca hk hlot hvn hsa himp]
   exact assert_eq_ref cx x.posts hvn hsa hkc
 
 /-- C08 and C09 agree, costs and the implied exchange included: both are the
@@ -153,31 +158,42 @@ theorem COH.reader_amounts_exact (env : PrecEnv) (x : Xact)
 /-- The display precision the zero test reads is learned the same way in C16's
     journal (`PrecTable.bumpAll` over the transaction's amounts) and in C01/C02's
     (`FinX.observe`), for every commodity but the null one (which `Amount.isZero`
-    never looks up). -/
-theorem COH.prec_env_agree (t : AutoXact.PrecTable) (x : Xact) (c : Comm) (hc : c ≠ "") :
+    never looks up); without lot annotations (C16 files a lot under its base symbol). -/
+theorem COH.prec_env_agree (t : AutoXact.PrecTable) (x : Xact) (c : Comm) (hc : c ≠ "")
+    (hcl : AutoXact.hasLot c = false) (hl : noLotAmt x.posts = true) :
     (t.bumpAll (x.posts.filterMap (·.amount))).get c = FinX.observe t.get x c := by
+  have hl' : ∀ p ∈ x.posts, ∀ a, p.amount = some a → AutoXact.hasLot a.comm = false := by
+    intro p hp a ha
+    unfold noLotAmt at hl
+    have := List.all_eq_true.1 hl p hp
+    rw [ha] at this
+    simpa using this
+  have hbc := baseComm_of_noLot c hcl
   unfold AutoXact.PrecTable.bumpAll FinX.observe
-  generalize x.posts = ps
+  generalize x.posts = ps at hl'
   induction ps generalizing t with
   | nil => rfl
   | cons p ps ih =>
+    have hl'' : ∀ q ∈ ps, ∀ a, q.amount = some a → AutoXact.hasLot a.comm = false :=
+      fun q hq => hl' q (List.mem_cons_of_mem _ hq)
     cases ha : p.amount with
     | none =>
       simp only [List.filterMap_cons, ha, List.foldl_cons]
-      exact ih t
+      exact ih t hl''
     | some a =>
+      have hba := baseComm_of_noLot a.comm (hl' p List.mem_cons_self a ha)
       simp only [List.filterMap_cons, ha, List.foldl_cons]
-      rw [ih]
+      rw [ih _ hl'']
       congr 1
       unfold AutoXact.PrecTable.bump
       by_cases hh : a.hasComm = true
       · rw [if_pos hh]
         by_cases hac : a.comm = c
         · subst hac
-          simp [AutoXact.PrecTable.get, List.lookup, Nat.max_comm]
+          simp [AutoXact.PrecTable.get, List.lookup, Nat.max_comm, hba]
         · have hca : (c == a.comm) = false := by
             simp only [beq_eq_false_iff_ne, ne_eq]; exact fun e => hac e.symm
-          simp [AutoXact.PrecTable.get, List.lookup, hac, hca]
+          simp [AutoXact.PrecTable.get, List.lookup, hac, hca, hba, hbc]
       · rw [if_neg hh]
         have : a.comm = "" := by simpa [Amount.hasComm] using hh
         have hac : ¬ a.comm = c := by rw [this]; exact fun e => hc e.symm
@@ -443,7 +459,7 @@ private def xFill : Xact :=
 example : noKeepAmt xFill.posts = true ∧ noKeepCost xFill.posts = true ∧ noVirtNull xFill.posts = true ∧
     someAmount xFill.posts = true ∧ costOtherComm xFill.posts = true ∧ costHasAmount xFill.posts = true ∧
     exchangeGuard env2 xFill.posts = true ∧ noCostAssert xFill.posts = true ∧
-    impliedCase env2 xFill.posts = false := by decide +kernel
+    noLotAmt xFill.posts = true ∧ impliedCase env2 xFill.posts = false := by decide +kernel
 example : verdictFin (FinX.finalize env2 none id xFill)
     = .accepted [⟨"A", .real, eur 1000 2⟩, ⟨"C", .bvirtual, usd 250 2⟩, ⟨"B", .real, (eur 1000 2).neg⟩,
                  ⟨"B", .real, (usd 250 2).neg⟩] := by decide +kernel
